@@ -16,7 +16,8 @@ THEOREMS = ["fasta_read_write", "fasta_rewrap_invariant", "fasta_file_lines", "f
             "mask_length", "mask_normal", "mask_reverse", "alipid_bounds", "alipid_symmetric",
             "shuffle_mono_permutation", "shuffle_windows_permutation", "shuffle_kmers_permutation", "shuffle_msa_columns_permutation", "shuffle_mono_counts", "shuffle_reproducible",
             "reformat_afa_shape", "reformat_no_option_identity", "reformat_upper_idempotent", "reformat_rna_then_dna",
-            "reformat_roundtrip", "reformat_gap_columns", "alistat_counts", "translate_orf_header"]
+            "reformat_roundtrip", "reformat_gap_columns", "alistat_counts", "translate_orf_header",
+            "sfetch_r_and_reversed_coords_cancel", "bootstrap_columns_from_input", "downsample_selects"]
 
 SQFORMATS = ["fasta", "embl", "genbank", "uniprot", "ddbj", "daemon", "hmmpgmd", "ncbi", "fmindex"]
 MSAFORMATS = ["stockholm", "pfam", "a2m", "afa", "psiblast", "clustal", "clustallike", "selex", "phylip", "phylips"]
@@ -995,6 +996,33 @@ def ref_alistat(rng, i):
             "ops": [op_file("in.afa", text), op_run("esl-alistat", args)]}
 
 
+def ref_hmmpgmd(rng, i):
+    """esl-reformat hmmpgmd: header `#<nres> <nseq> 1 <nseq> <nseq> <date>`, records renamed `<idx> 1` without description,
+    and the map file `<nseq>` / `<idx> <name> <desc>`"""
+    recs, abc = ref_records(rng, maxlen=100)
+    return {"name": "ref-hmmpgmd-%d" % i, "ref": True, "nopred_ok": True, "sticky": 1, "hmmpgmd": recs,
+            "ops": [op_file("in.fa", ref_fasta_text(rng, recs)), op_run("esl-reformat", ["--informat", "fasta", "hmmpgmd", "in.fa"]), "cat name=in.fa.map"]}
+
+
+def _check_hmmpgmd(case, out):
+    recs = case["hmmpgmd"]
+    kv = dict(w.split("=", 1) for w in out[-2].split() if "=" in w)
+    txt = bytes.fromhex(kv.get("out", "")).decode("latin-1") if kv.get("out", "-") != "-" else ""
+    p_ = out[-1].split()
+    mp = bytes.fromhex(p_[1]).decode("latin-1") if len(p_) > 1 and p_[0] == "ok" and p_[1] != "-" else ""
+    lines = txt.split("\n")
+    n = len(recs); nres = sum(len(s_) for _, _, s_ in recs)
+    if not re.fullmatch(r"#%d %d 1 %d %d \w{3} \w{3} +\d+ \d\d:\d\d:\d\d \d{4}" % (nres, n, n, n), lines[0]):
+        return "header line %r (expected #%d %d 1 %d %d <date>)" % (lines[0], nres, n, n, n)
+    want = fasta_text([("%d 1" % (k + 1), "", s_) for k, (_, _, s_) in enumerate(recs)], 60)
+    if "\n".join(lines[1:]) != want:
+        return "records differ: %r vs %r" % ("\n".join(lines[1:])[:200], want[:200])
+    wantmap = "%d\n" % n + "".join("%d %s %s\n" % (k + 1, nm, d) for k, (nm, d, _) in enumerate(recs))
+    if mp != wantmap:
+        return "map file %r, expected %r" % (mp[:200], wantmap[:200])
+    return None
+
+
 def ref_alistat_info(rng, i):
     """esl-alistat --list / --rinfo / --cinfo --noambig files, recomputed from the alignment (numeric fields compared)"""
     abc = rng.choice([DNA, "ACGU", AMINO])
@@ -1061,7 +1089,10 @@ def ref_small(rng, i):
         if rng.random() < 0.3: opts += ["--gapsym", rng.choice([".", "_", "x"])]
         if rng.random() < 0.3: opts += ["--rename", "nn"]
         if rng.random() < 0.2: opts += ["--replace", rng.choice(["A:x", "AC:ca"])]
-        tail = ["--informat", "pfam", "afa", "in.sto"]
+        outf = rng.choice(["afa", "afa", "pfam"])
+        if outf == "pfam":
+            opts = [o for k_, o in enumerate(opts) if o != "--rename" and (k_ == 0 or opts[k_ - 1] != "--rename")]   # unimplemented with --small pfam
+        tail = ["--informat", "pfam", outf, "in.sto"]
         a1, a2, tool = opts + tail, ["--small"] + opts + tail, "esl-reformat"
     elif which == "alimask":
         alen = len(rows[0][1]); a = rng.randrange(1, alen + 1); b = rng.randrange(a, alen + 1)
@@ -1098,7 +1129,8 @@ def ref_afetch_multi(rng, i):
         ops.append(op_run("esl-afetch", ["--index", "in.sto"]))
     ops.append(op_run("esl-afetch", ["-f", "in.sto", "names"]))
     expect = want if indexed else [n for n in names if n in want]
-    return {"name": "ref-afetchmulti-%d" % i, "ref": True, "nopred_ok": True, "sticky": 1, "expect_ids": expect, "ops": ops}
+    return {"name": "ref-afetchmulti-%d" % i, "ref": True, "nopred_ok": True, "sticky": 1, "expect_ids": expect, "ops": ops,
+            "index_msg": "Working...    done.\nIndexed %d alignments (%d names).\nSSI index written to file in.sto.ssi\n" % (nali, nali)}
 
 
 RT_FORMATS = ["stockholm", "pfam", "clustal", "clustallike", "phylip", "phylips", "selex"]   # psiblast and a2m re-case insert columns: not an identity
@@ -1133,7 +1165,8 @@ def ref_afetch(rng, i):
     if rng.random() < 0.5:
         ops.append(op_run("esl-afetch", ["--index", "in.sto"]))
     ops += [op_run("esl-afetch", ["in.sto", name]), "save name=mid", op_run("esl-reformat", ["--informat", "stockholm", "afa", "mid"])]
-    return {"name": "ref-afetch-%d" % i, "ref": True, "nopred_ok": True, "sticky": 1, "roundtrip": rows, "ops": ops}
+    return {"name": "ref-afetch-%d" % i, "ref": True, "nopred_ok": True, "sticky": 1, "roundtrip": rows, "ops": ops,
+            "index_msg": "Working...    done.\nIndexed %d alignments (%d names).\nSSI index written to file in.sto.ssi\n" % (nali, nali)}
 
 
 def ref_weight(rng, i):
@@ -1274,7 +1307,7 @@ def ref_alimanip(rng, i):
     return {"name": "ref-alimanip-%d" % i, "ref": True, "nopred_ok": True, "sticky": 1, "roundtrip": want, "ops": ops}
 
 
-REF_GENERATORS = [("esl-sfetch afa", ref_sfetch_afa), ("esl-alistat info", ref_alistat_info), ("small modes", ref_small), ("esl-afetch -f", ref_afetch_multi), ("esl-alimask", ref_alimask), ("esl-alimanip", ref_alimanip), ("easel index", ref_index), ("easel filter", ref_filter), ("esl-weight", ref_weight), ("esl-afetch", ref_afetch), ("roundtrip", ref_roundtrip), ("esl-alistat", ref_alistat), ("esl-translate", ref_translate), ("esl-sfetch", ref_sfetch), ("esl-seqstat", ref_seqstat), ("esl-alirev", ref_alirev), ("esl-alipid", ref_alipid),
+REF_GENERATORS = [("esl-reformat hmmpgmd", ref_hmmpgmd), ("esl-sfetch afa", ref_sfetch_afa), ("esl-alistat info", ref_alistat_info), ("small modes", ref_small), ("esl-afetch -f", ref_afetch_multi), ("esl-alimask", ref_alimask), ("esl-alimanip", ref_alimanip), ("easel index", ref_index), ("easel filter", ref_filter), ("esl-weight", ref_weight), ("esl-afetch", ref_afetch), ("roundtrip", ref_roundtrip), ("esl-alistat", ref_alistat), ("esl-translate", ref_translate), ("esl-sfetch", ref_sfetch), ("esl-seqstat", ref_seqstat), ("esl-alirev", ref_alirev), ("esl-alipid", ref_alipid),
                   ("esl-seqrange", ref_seqrange), ("esl-selectn", ref_selectn), ("esl-mask", ref_mask),
                   ("esl-reformat", ref_reformat), ("esl-shuffle", ref_shuffle), ("easel downsample", ref_downsample)]
 
@@ -1375,7 +1408,7 @@ def reference_cases(ctx):
     per = 30 if ctx.tier == "quick" else 300
     out = []
     for tool, g in REF_GENERATORS:
-        for i in range(max(10, per // 3) if tool == "easel index" else (2 * per if tool in ("esl-translate", "esl-sfetch") else per)):
+        for i in range(max(10, per // 3) if tool in ("easel index", "esl-reformat hmmpgmd") else (2 * per if tool in ("esl-translate", "esl-sfetch") else per)):
             out.append(g(rng, i))
     return out
 
@@ -1385,6 +1418,17 @@ def ref_monitor(ctx, case, out):
     for op, l in zip(case["ops"], out):
         if op.startswith("run ") and " class=ok " not in l:
             return None if case.get("may_fail") else _fail("reference case: tool did not succeed on a valid input: " + l[:200])
+    if case.get("hmmpgmd") is not None and len(out) >= 3:
+        msg = _check_hmmpgmd(case, out)
+        if msg:
+            return _fail("esl-reformat hmmpgmd output is not the recomputed one (%s): %s" % (case["name"], msg))
+    if case.get("index_msg") is not None:
+        for op, l in zip(case["ops"], out):
+            if op.startswith("run ") and "2d2d696e646578" in op:      # --index
+                kv = dict(w.split("=", 1) for w in l.split() if "=" in w)
+                t = bytes.fromhex(kv.get("out", "")).decode("latin-1") if kv.get("out", "-") != "-" else ""
+                if t != case["index_msg"]:
+                    return _fail("esl-afetch --index printed %r, expected %r (%s)" % (t, case["index_msg"], case["name"]))
     if case.get("alistat_info") is not None and len(out) >= 5:
         msg = _check_alistat_info(case, out)
         if msg:
